@@ -639,6 +639,12 @@ class HierGen(Gen):
         names_pool = ['x', 'y', 'my_field', 'other_name', 'val', 'zz', 'a_b_c', 'q']
         prev = None
         prev_params = []
+        side = None
+        if generic and r.random() < 0.5:
+            # an independent generic dataclass used as a FIELD type (`child: G[T]`, `many: List[G[T]]`): the subscription
+            # of the enclosing class must reach its argument
+            side = self.fresh('G')
+            decls.append({'name': side, 'fields': [{'name': 'item', 'ty': tv('T')}], 'opts': {}, 'hook': None, 'tvars': ['T']})
         for lvl in range(depth):
             name = self.fresh('H')
             d = {'name': name, 'fields': [], 'opts': self.gen_opts(lvl), 'hook': None}
@@ -670,7 +676,7 @@ class HierGen(Gen):
                         d['base'] = {'cls': [prev, []]}
                     avail_tvars = list(new_vars)
                     if new_vars and r.random() < 0.5:
-                        extra = [v for v in ['X'] if r.random() < 0.3]
+                        extra = [v for v in ['X'] if r.random() < 0.3 and v not in new_vars]
                         tvs = new_vars + extra
                         if r.random() < 0.3:
                             r.shuffle(tvs)
@@ -684,6 +690,12 @@ class HierGen(Gen):
                 if not kw and r.random() < 0.1:
                     d['fields'].append({'name': '_', 'ty': 'KW_ONLY'})
                     kw = True
+                if avail_tvars and side and r.random() < 0.45:
+                    v = r.choice(avail_tvars)
+                    sty = {'cls': [side, [r.choice([tv(v), tv(v), {'seq': ['list', tv(v)]}, 'str'])]]}
+                    ty = r.choice([sty, sty, {'seq': ['list', sty]}, {'union': [sty, 'NoneType']}, {'map': ['dict', ['str', sty]]}])
+                    d['fields'].append({'name': fn, 'ty': ty})
+                    continue
                 if avail_tvars and r.random() < 0.6:
                     v = r.choice(avail_tvars)
                     ty = r.choice([tv(v), {'seq': ['list', tv(v)]}, {'union': [tv(v), 'NoneType']}, {'map': ['dict', ['str', tv(v)]]},
@@ -738,10 +750,20 @@ def scenarios_construct(seed, n):
             if r.random() < 0.15:
                 f['spec'] = {'aliases': [fn + '_alias']}
             d['fields'].append(f)
+        noinit = None
+        if len(fnames) >= 2 and r.random() < 0.25:
+            # a field that is not a constructor parameter (init=False), preferably NOT the last one: it keeps its slot in the
+            # field list but takes no element of a sequence and no argument
+            cands = [f for f in d['fields'][:-1] if f['ty'] != 'KW_ONLY' and 'default' in f and f['name'] != fnames[0]]
+            if cands:
+                noinit = r.choice(cands)
+                noinit.setdefault('spec', {})['init'] = False
+                noinit['spec'].pop('aliases', None)
+                noinit['spec']['exclude'] = True
         if r.random() < 0.2:
             d['hook'] = r.choice(['raise_always', 'reject_neg:' + fnames[0]])
         hg.class_info[name] = d
-        real = [f for f in d['fields'] if f['ty'] != 'KW_ONLY']
+        real = [f for f in d['fields'] if f['ty'] != 'KW_ONLY' and f is not noinit]
         supplied = [f for f in real if r.random() < 0.6]
         path = r.choice(['construct', 'construct', 'unchecked', 'from_data_struct', 'from_data_tuple'])
         vals = {}
@@ -760,7 +782,7 @@ def scenarios_construct(seed, n):
                 if f['ty'] == 'KW_ONLY':
                     kwf = True
                     continue
-                if not kwf:
+                if not kwf and f is not noinit:
                     pos.append(f['name'])
             npos = 0
             for nm in pos:
@@ -787,7 +809,8 @@ def scenarios_construct(seed, n):
             for f in d['fields']:
                 if f['ty'] == 'KW_ONLY':
                     break
-                pos.append(f)
+                if f is not noinit:
+                    pos.append(f)
             items = []
             for f in pos:
                 if f['name'] in vals:
@@ -995,28 +1018,43 @@ def scenarios_valuesem(seed, n):
         if generic and r.random() < 0.6:
             tys = [{'cls': [name, ['int']]}]
             keys = [r.choice([name, name + '[int]']) for _ in pool]
+            if r.random() < 0.6:
+                # ordinary subclasses of the subscripted class (`class A(G[int])`, `class B(G[int])`): other classes, never equal
+                # to the base's or to each other's instances, whatever the field values
+                subs = [name + 'A', name + 'B']
+                for sn in subs:
+                    decl['classes'].append({'name': sn, 'fields': [], 'opts': {}, 'hook': None, 'base': {'cls': [name, ['int']]}})
+                for k2 in range(len(pool)):
+                    if r.random() < 0.6:
+                        sn = r.choice(subs)
+                        pool[k2] = {'obj': [sn] + pool[k2]['obj'][1:]}
+                        keys[k2] = sn
         sc0 = {'decl': decl, 'spell': 0, 'stream': 'valuesem', 'tys': tys}
         a, b = r.randrange(len(pool)), r.randrange(len(pool))
-        op = r.choice(['cmp', 'cmp', 'cmp', 'repr', 'setattr', 'delattr', 'copy', 'replace', 'dictview'])
+        op = r.choice(['cmp', 'cmp', 'cmp', 'repr', 'setattr', 'delattr', 'copy', 'replace', 'dictview', 'copyset', 'copyset'])
         sc = dict(sc0, id=f'v{seed}:{i}', op=op)
         if op == 'cmp':
             sc.update(a=pool[a], b=pool[b], akey=keys[a], bkey=keys[b], eq_opt=eq_opt, order_opt=order_opt,
                       pool=[[x, k] for x, k in zip(pool, keys)])
         elif op == 'repr':
-            sc.update(a=pool[a], akey=name)
+            sc.update(a=pool[a], akey=keys[a])
         elif op in ('setattr', 'delattr'):
-            sc.update(cls=name, obj=pool[a], name=r.choice(fnames), val=ENC.enc(hg.valid(ftys[0], 2) if r.random() < 0.5 else 'zz'), frozen=frozen)
+            sc.update(cls=pool[a]['obj'][0], obj=pool[a], name=r.choice(fnames), val=ENC.enc(hg.valid(ftys[0], 2) if r.random() < 0.5 else 'zz'), frozen=frozen)
+        elif op == 'copyset':
+            k = r.randrange(len(fnames))
+            sc.update(cls=pool[a]['obj'][0], obj=pool[a], how=r.choice(['copy', 'deepcopy', 'replace', 'fromdict']), mutate=r.choice(['orig', 'copy']),
+                      name=fnames[k], val=ENC.enc(hg.valid(ftys[k], 2)), frozen=frozen)
         elif op == 'copy':
-            sc.update(cls=name, obj=pool[a], deep=r.random() < 0.5)
+            sc.update(cls=pool[a]['obj'][0], obj=pool[a], deep=r.random() < 0.5)
         elif op == 'replace':
             k = r.randrange(len(fnames))
             v = hg.valid(ftys[k], 2) if r.random() < 0.7 else hg.rscalar()
             try:
-                sc.update(cls=name, obj=pool[a], kwargs=[[fnames[k], ENC.enc(v)]])
+                sc.update(cls=pool[a]['obj'][0], obj=pool[a], kwargs=[[fnames[k], ENC.enc(v)]])
             except Exception:
                 continue
         else:
-            sc.update(cls=name, obj=pool[a], set_only=r.random() < 0.5, rename=r.choice([None, None, 'camel', 'scream', 'pascal']))
+            sc.update(cls=pool[a]['obj'][0], obj=pool[a], set_only=r.random() < 0.5, rename=r.choice([None, None, 'camel', 'scream', 'pascal']))
         out.append(sc)
     return out
 
@@ -1274,6 +1312,32 @@ def scenarios_handlers(seed, n):
         ty = {'cls': tcls, 'list': {'seq': ['list', tcls]}, 'union': {'union': [tcls, 'int']}, 'dictval': {'map': ['dict', ['str', tcls]]},
               'int': 'int', 'listint': {'seq': ['list', 'int']}, 'inner': {'cls': [inner, []]}}[shape]
         call = maybe_custom(0.5)
+        pre = []
+        if r.random() < 0.3:
+            # the SAME function-form handler object in two roles (a call's custom= and an enclosing class's custom=), and an
+            # earlier conversion of the nested class in the other role, in the same interpreter
+            shared = dict(handler(['int'], exact=False), share='s1')
+            role = r.choice(['outer', 'sub' if target != outer else 'outer'])
+            (do if role == 'outer' else ds)['opts']['custom'] = [shared]
+            if 'custom' not in di['opts'] and r.random() < 0.7:
+                di['opts']['custom'] = [handler(['int'])]
+            icls = {'cls': [inner, []]}
+            pre_ty = r.choice([icls, {'seq': ['list', icls]}])
+            if r.random() < 0.5:
+                # first as a call-level handler, then (the scenario proper) through the enclosing class
+                try:
+                    pre = [{'ty': pre_ty, 'val': ENC.enc(ge.valid(pre_ty)), 'handlers': {'globals': [shared]}}]
+                except Exception:
+                    pre = []
+                call = None if r.random() < 0.7 else call
+            else:
+                # first through the enclosing class, then (the scenario proper) as a call-level handler on the nested class
+                try:
+                    pre = [{'ty': tcls, 'val': ENC.enc(ge.valid(tcls)), 'handlers': None}]
+                except Exception:
+                    pre = []
+                ty = pre_ty
+                call = [shared]
         try:
             v = ge.valid(ty)
             if r.random() < 0.15:
@@ -1283,9 +1347,11 @@ def scenarios_handlers(seed, n):
         except Exception:
             continue
         sc = {'id': f'h{seed}:{i}', 'decl': ge.decl, 'op': r.choice(['from_data', 'from_data', 'roundtrip']), 'ty': ty, 'val': wire,
-              'spell': 0, 'stream': 'handlers'}
+              'spell': 0, 'stream': 'handlers-shared' if pre else 'handlers'}
         if call:
             sc['handlers'] = {'globals': call}
+        if pre:
+            sc['pre'] = pre
         out.append(sc)
     return out
 
@@ -1294,7 +1360,7 @@ def scenarios_history(seed, n, threads=0):
     """C10: random histories of alloc / drop / gc / churn / call over a few slots and a pool of short-lived type expressions"""
     g = random.Random(seed)
     out = []
-    NT = 12
+    NT = 15
     for i in range(n):
         r = random.Random(g.randrange(1 << 62))
         hist = []
@@ -1311,10 +1377,12 @@ def scenarios_history(seed, n, threads=0):
                 live.discard(s)
             elif p < 0.55:
                 hist.append(['gc'])
-            elif p < 0.65:
+            elif p < 0.63:
                 hist.append(['churn', r.randrange(NT), r.randint(1, 6)])
+            elif p < 0.70:
+                hist.append(['mutreg', r.choice([3, 5, 7, 11])])
             else:
-                hist.append(['call', r.choice(sorted(live)), r.choice([0, 0, 0, 1, 1, 2])])
+                hist.append(['call', r.choice(sorted(live)), r.choice([0, 0, 0, 1, 1, 2, 3, 3])])
         # the classic: build, use, drop, (collect), re-create ANOTHER type of the same size, use
         if r.random() < 0.4:
             a, b = r.sample(range(NT), 2)
@@ -1388,7 +1456,7 @@ def scenarios_io(seed, n):
             return ge.valid(ty, 2)
 
         ty = rty(0) if r.random() < 0.65 else rty(1)
-        sink = r.choice(['strpath', 'path', 'stringio', 'textfile', 'yaml_all', 'yaml_all_path'])
+        sink = r.choice(['strpath', 'path', 'stringio', 'textfile', 'textfile2', 'textfile2', 'yaml_all', 'yaml_all_path'])
         if isinstance(ty, dict) and 'cls' in ty and r.random() < 0.6:
             sink = r.choice(['method', 'method_file', 'method_stream'])
         fmt = r.choice(['json', 'yaml']) if not sink.startswith('yaml_all') else 'yaml'
@@ -1407,5 +1475,5 @@ def scenarios_io(seed, n):
         except Exception:
             continue
         out.append({'id': f'io{seed}:{i}', 'decl': ge.decl, 'op': 'io', 'ty': ty, 'val': wire, 'fmt': fmt, 'sink': sink, 'opts': opts,
-                    'ndocs': r.randint(1, 4), 'enc': r.choice(['utf-8', 'utf-8', 'latin-1', 'ascii']), 'is_path': sink in ('strpath', 'path', 'method_file', 'yaml_all_path'), 'spell': r.randrange(2), 'stream': 'io-' + fmt})
+                    'ndocs': r.randint(1, 4), 'enc': r.choice(['utf-8', 'latin-1', 'ascii', 'cp1252', 'utf-16']), 'is_path': sink in ('strpath', 'path', 'method_file', 'yaml_all_path'), 'spell': r.randrange(2), 'stream': 'io-' + fmt})
     return out
